@@ -63,6 +63,7 @@ type oracles struct {
 	lastMem   []*memView // last membership observed per host
 	everRemoved map[uint64]uint64 // replica id -> ccid at which it was seen removed
 	maxCommitted uint64
+	dupFired int
 	abandoned []*pendingReq
 	snapshotsDone int
 }
@@ -252,6 +253,12 @@ func (o *oracles) afterStep() {
 	o.pollAbandoned()
 	var sig uint64 = 14695981039346656037
 	for _, h := range s.hosts {
+		if h.up && h.started && !h.stopped && !h.selfRemoved && h.busy != nil && h.busy["boot"] == nil && !s.shardLoaded(h) {
+			// the node stopped itself: the only reason is that it applied its own removal
+			h.removed = true
+			h.selfRemoved = true
+			s.ctx.Count("probe.self_removed", 1)
+		}
 		st, ok := o.peek(h)
 		if !ok {
 			sig = sig*1099511628211 ^ 0xdead
@@ -643,6 +650,20 @@ func (o *oracles) livenessFailed(what string) {
 		}
 		desc += "] "
 	}
+	for _, x := range s.hosts {
+		if !x.selfRemoved {
+			continue
+		}
+		for _, h := range s.hosts {
+			if st, ok := o.peek(h); ok && h != x {
+				for _, rm := range st.Remotes {
+					if rm.ReplicaID == x.replicaID {
+						desc = fmt.Sprintf("cause=removed-replica-still-counted: replica %d applied its own removal and stopped, replica %d never learned that the removal was committed and still counts it as a member; ", x.replicaID, h.replicaID) + desc
+					}
+				}
+			}
+		}
+	}
 	s.ctx.Violate("C17", "no-progress", "fair fault-free phase of %d ticks per host did not finish: %s tasks=%s", int(s.cfg.ElectionRTT)*60, desc, s.ex.Describe())
 }
 
@@ -737,6 +758,10 @@ func (o *oracles) finalChecks() {
 func (o *oracles) checkLinearizable() {
 	s := o.s
 	if len(o.history) == 0 {
+		return
+	}
+	if o.dupFired > 0 {
+		// C01 holds "as long as no message is fabricated or duplicated by the network"
 		return
 	}
 	const inf = int64(1) << 60
